@@ -242,6 +242,21 @@ class CommentStyle:
         return "\n".join(item for item in (first, result, last) if item)
 
     @classmethod
+    def _starts_with_single_marker(cls, line: str) -> bool:
+        """Whether *line* starts with the single-line comment marker. A marker
+        that is a word ('REM', 'dnl') must end there: 'REMOVE.EXE' and 'dnlfoo'
+        are code.
+        """
+        if not line.startswith(cls.SINGLE_LINE):
+            return False
+        marker = cls.SINGLE_LINE
+        return not (
+            len(marker) > 1
+            and marker[-1].isalnum()
+            and line[len(marker) : len(marker) + 1].isalnum()
+        )
+
+    @classmethod
     def comment_at_first_character(cls, text: str) -> str:
         """Return the comment block that starts at the first character of
         *text*. This is chiefly handy to get the header comment of a file,
@@ -284,7 +299,7 @@ class CommentStyle:
                 if (
                     cls.SINGLE_LINE_REGEXP
                     and cls.SINGLE_LINE_REGEXP.match(line)
-                ) or line.startswith(cls.SINGLE_LINE):
+                ) or cls._starts_with_single_marker(line):
                     end = i
                 else:
                     break
